@@ -260,6 +260,15 @@ func c20GenReq(r *rand.Rand, id string) *c20Req {
 	default:
 		q.Upgrade = "other"
 	}
+	if q.Upgrade == "none" && r.IntN(4) == 0 {
+		// the rest of a handshake without the Upgrade header itself (a proxy that strips
+		// hop-by-hop headers leaves this): still a request without Upgrade header
+		q.Header.Set("Sec-WebSocket-Version", "13")
+		q.Header.Set("Sec-WebSocket-Key", c20ValidKey)
+		if q.Transport == "direct" && r.IntN(2) == 0 {
+			q.Header.Set("Connection", "Upgrade")
+		}
+	}
 	if q.Transport == "direct" && (q.Upgrade == "dial" || q.Upgrade == "manual") {
 		// a recorder cannot be hijacked; keep the header combination, break the handshake
 		q.Upgrade = "broken:" + vk.Pick(r, c20BrokenKinds)
